@@ -417,7 +417,13 @@ def _shapes(ctx, cls):
     for c2 in ivs:
         if len(c2.args) >= 3:
             a0, a1, a2 = (ast.unparse(x) for x in c2.args[:3])
-            if not ("start" in a0 and "duration" in a1 and "end" in a2):
+            # positional roles are (start, size, end).  The provenance of the
+            # three values runs through a table of tuples and is not traced;
+            # what can be told from the spelling alone is a *recognisable*
+            # swap - arbitrary names say nothing and are accepted
+            swapped = ("end" in a0.lower() and "start" not in a0.lower()) or ("start" in a2.lower() and "end" not in a2.lower()) or (
+                "duration" in a0.lower() or "duration" in a2.lower())
+            if swapped:
                 chk.violation("R03.b", F, c2, f"interval variable built as ({a0}, {a1}, {a2}), expected (start, duration, end)", loc=F.loc(c2))
     # ---- makespan = max of all ends, minimise it
     c, _ = found["maxeq"][0]
@@ -527,7 +533,7 @@ def _no_overlap(ctx, F, solve, c):
                 if ast.unparse(g.iter).replace(" ", "").endswith("range(instance.num_machines)") and isinstance(n.value.elt, ast.List) and not n.value.elts if False else ast.unparse(g.iter).replace(" ", "").endswith("range(instance.num_machines)"):
                     created = True
         if isinstance(n, ast.Call) and isinstance(n.func, ast.Attribute) and n.func.attr == "append" and isinstance(n.func.value, ast.Subscript):
-            if ast.unparse(n.func.value.value) == tname and ctx.norm.xtext(F, n.func.value.slice).endswith("operation.machine_id"):
+            if ast.unparse(n.func.value.value) == tname and ctx.norm.xtext(F, n.func.value.slice).endswith(".machine_id"):
                 if _over_all_operations(ctx, F, n) and not any(isinstance(p, ast.If) for p in _if_parents(F, n)):
                     filled = True
     if not created:
@@ -547,6 +553,22 @@ def _if_parents(F, node):
     return out
 
 
+def _is_status(ctx, F, e) -> bool:
+    """e is the solver status: the value returned by `<solver>.Solve(...)`,
+    whatever local it is kept in."""
+    t = ctx.norm.xtext(F, e)
+    if ".Solve(" in t or ".solve(" in t:
+        return True
+    if isinstance(e, ast.Name):
+        # names that are not single-definition in the flattened function
+        for d in ctx.flow.defs(F).of(e.id):
+            if d[1] is not None and (".Solve(" in ast.unparse(d[1]) or ".solve(" in ast.unparse(d[1])):
+                return True
+            if d[1] is not None and isinstance(d[1], ast.Name) and d[1].id != e.id and _is_status(ctx, F, d[1]):
+                return True
+    return False
+
+
 def _status(ctx, cls, solve_raw):
     chk = ctx.chk
     solve = ctx.norm.flat(solve_raw, depth=2)
@@ -559,8 +581,7 @@ def _status(ctx, cls, solve_raw):
         tbl = None
 
         def is_status(e):
-            t = ast.unparse(e)
-            return t == "status" or ".Solve(" in t or ".solve(" in t
+            return _is_status(ctx, solve, e)
 
         if isinstance(x, ast.Call) and isinstance(x.func, ast.Attribute) and x.func.attr == "get" and x.args and is_status(x.args[0]):
             tbl = x.func.value
@@ -579,7 +600,7 @@ def _status(ctx, cls, solve_raw):
             continue
         t = g.test
         names = None
-        if isinstance(t, ast.Compare) and len(t.ops) == 1 and isinstance(t.ops[0], ast.NotIn) and ast.unparse(t.left) == "status":
+        if isinstance(t, ast.Compare) and len(t.ops) == 1 and isinstance(t.ops[0], ast.NotIn) and _is_status(ctx, solve, t.left):
             comp = ctx.norm.xexpr(solve, t.comparators[0])
             if isinstance(comp, ast.Name) and comp.id in solve.module.assigns:
                 comp = solve.module.assigns[comp.id]
@@ -613,10 +634,18 @@ def _status(ctx, cls, solve_raw):
     st = kv["status"]
     tb = status_table(st)
     if (
-        isinstance(st, ast.IfExp) and isinstance(st.body, ast.Constant) and st.body.value == "optimal"
-        and isinstance(st.test, ast.Compare) and isinstance(st.test.ops[0], ast.Eq) and ast.unparse(st.test.left) == "status"
-        and ast.unparse(st.test.comparators[0]).endswith("OPTIMAL")
-        and isinstance(st.orelse, ast.Constant) and st.orelse.value == "feasible"
+        isinstance(st, ast.IfExp) and isinstance(st.test, ast.Compare) and len(st.test.ops) == 1
+        and isinstance(st.test.ops[0], (ast.Eq, ast.NotEq))
+        and (
+            # status == OPTIMAL (either way round); != swaps the branches
+            (_is_status(ctx, solve, st.test.left) and ast.unparse(st.test.comparators[0]).endswith("OPTIMAL"))
+            or (_is_status(ctx, solve, st.test.comparators[0]) and ast.unparse(st.test.left).endswith("OPTIMAL"))
+        )
+        and isinstance(st.body, ast.Constant) and isinstance(st.orelse, ast.Constant)
+        and (
+            (isinstance(st.test.ops[0], ast.Eq) and st.body.value == "optimal" and st.orelse.value == "feasible")
+            or (isinstance(st.test.ops[0], ast.NotEq) and st.body.value == "feasible" and st.orelse.value == "optimal")
+        )
     ):
         chk.ok("R03.c", solve_raw.qualname, solve.loc(st), "\"optimal\" only under status == OPTIMAL")
     elif tb is not None:
